@@ -268,6 +268,44 @@ def isolation_run():
     return run
 
 
+def init_run():
+    """The real Taus.__init__ for every shipped table version, with NssGrid.read replaced by a recorder: the CDF table
+    (and the exit-probability table) it loads must be the files of the CONFIGURED version."""
+
+    def run(C):
+        import os
+
+        reads = []
+
+        class Rec(stubs.GridStub):
+            @staticmethod
+            def read(file, *a, **k):
+                reads.append(os.path.basename(str(file)))
+                return ("grid", os.path.basename(str(file)))
+
+        _ins, cns, _t = _load()
+        tns = load.load("nuspacesim.simulation.taus.taus", {"grid_cdf_sampler": cns["grid_cdf_sampler"], "RegularGridInterpolator": stubs.RegularGridInterpolator, "NssGrid": Rec})
+        claims = {}
+        for ver in ("1", "2", "3"):
+            del reads[:]
+            cfg = type("Cfg", (), {"simulation": type("S", (), {"tau_shower": type("TS", (), {"table_version": ver, "etau_frac": 0.5})()})()})()
+            try:
+                T = tns["Taus"](cfg)
+                got_cdf, got_px, err = getattr(T, "tau_cdf_grid", None), getattr(T, "pexit_grid", None), None
+            except Exception as ex:  # noqa
+                got_cdf = got_px = None
+                err = ex
+            claims[f"Taus(table_version={ver!r}): the CDF table loaded is nu2tau_cdf.{ver}.h5"] = z3.BoolVal(err is None and got_cdf == ("grid", f"nu2tau_cdf.{ver}.h5"))
+            claims[f"Taus(table_version={ver!r}): the exit-probability table loaded is nu2tau_pexit.{ver}.h5"] = z3.BoolVal(err is None and got_px == ("grid", f"nu2tau_pexit.{ver}.h5"))
+        return harness.Out(claims=claims)
+
+    return run
+
+
+def job_init(tier):
+    return harness.run_job("Taus.__init__ (table files per configured version)", init_run(), timeout_ms=10000, twin=False)
+
+
 def job_isolation(tier):
     return harness.run_job("Taus.tau_energy (two objects, different tables)", isolation_run(), timeout_ms=60000, second=(tier == "thorough"))
 
@@ -298,7 +336,7 @@ def jobs(tier, seed):
     out = [("s1", "job_sampler", {"M": M, "n_events": 1, "tier": tier}), ("s2", "job_sampler", {"M": M, "n_events": 2, "tier": tier}),
            ("s2small", "job_sampler", {"M": 2, "n_events": 2, "tier": tier}),
            ("ob", "job_outside", {"which": "below", "tier": tier}), ("oa", "job_outside", {"which": "above", "tier": tier}),
-           ("sh", "job_shapes", {"tier": tier}), ("iso", "job_isolation", {"tier": tier}),
+           ("sh", "job_shapes", {"tier": tier}), ("iso", "job_isolation", {"tier": tier}), ("init", "job_init", {"tier": tier}),
            ("w1", "job_wrapper", {"N": 1, "tier": tier}), ("w2", "job_wrapper", {"N": 2, "tier": tier}), ("w", "job_wrapper", {"N": 3, "tier": tier})]
     for v in ("1", "2", "3"):
         for part in range(4):
@@ -326,6 +364,29 @@ def replay(v):
     if job.startswith("data "):
         return tables.replay_data(v)
     m = v.get("model") or {}
+    if job.startswith("Taus.__init__"):
+        # real constructor, real files: the grids held by the object against the files of the configured version read directly
+        import warnings
+        from importlib.resources import as_file, files
+
+        from nuspacesim.config import NssConfig
+        from nuspacesim.simulation.taus.taus import Taus
+        from nuspacesim.utils.grid import NssGrid
+
+        warnings.simplefilter("ignore")
+        for ver in ("1", "2", "3"):
+            cfg = NssConfig()
+            cfg.simulation.tau_shower.table_version = ver
+            T = Taus(cfg)
+            for name, attr, kw in (("nu2tau_cdf", "tau_cdf_grid", {}), ("nu2tau_pexit", "pexit_grid", {"path": "/"})):
+                with as_file(files("nuspacesim.data.nupyprop_tables") / f"{name}.{ver}.h5") as f:
+                    want = NssGrid.read(f, format="hdf5", **kw)
+                got = getattr(T, attr)
+                if np.shape(got.data) != np.shape(want.data) or not np.array_equal(np.asarray(got.data), np.asarray(want.data)) or any(
+                        np.shape(a) != np.shape(b) or not np.array_equal(a, b) for a, b in zip(got.axes, want.axes)):
+                    return {"reproduced": True, "key": f"Taus(table_version): the {name} table held by the object is not the configured version's file",
+                            "detail": f"table_version = {ver!r}: Taus.{attr} (shape {np.shape(got.data)}) differs from {name}.{ver}.h5 (shape {np.shape(want.data)})"}
+        return {"reproduced": False, "key": None, "detail": "all three versions: both grids are the configured version's files"}
     if job.startswith("Taus.tau_energy") and "(pattern " in ob:
         pat = ob.split("(pattern ")[1].split(")")[0]
         T = _real_taus()
